@@ -208,10 +208,10 @@ func init() {
 		Old: "return ui(ctx, req, info, handler)", New: "return ui(context.Background(), req, info, handler)", Expect: "unary/args", Why: "interceptor receives another context"})
 	control(&Control{ID: "roleagree-swap", Rule: "ROLE-AGREE", File: "larking/handler.go",
 		Old: "IsClientStream: d.ClientStreams,\n\t\t\t\t\tIsServerStream: d.ServerStreams,", New: "IsClientStream: d.ServerStreams,\n\t\t\t\t\tIsServerStream: d.ClientStreams,", Expect: "StreamServerInfo.IsClientStream", Why: "streaming flags swapped"})
-	control(&Control{ID: "statspair-new-exit", Rule: "STATS-PAIR", File: "larking/http.go",
-		Old: "\therr := hd.handler(&m.opts, stream)\n\t// Try to send Trailers", New: "\therr := hd.handler(&m.opts, stream)\n\tif herr == io.EOF {\n\t\treturn nil\n\t}\n\t// Try to send Trailers", Expect: "exit-after:?", Why: "a new exit between Begin and End"})
+	control(&Control{ID: "statspair-no-defer", Rule: "STATS-PAIR", File: "larking/http.go",
+		Old: "\t\tdefer func() {\n\t\t\tendErr := herr", New: "\t\tfunc() {\n\t\t\tendErr := herr", Expect: "exit-after:", Why: "the End closure is called on the spot instead of deferred: no exit ends the RPC"})
 	control(&Control{ID: "statserr-nil", Rule: "STATS-ERR", File: "larking/http.go",
-		Old: "\t\t\tError:     herr,\n\t\t})\n\t}\n\tif herr != nil {", New: "\t\t\tError:     nil,\n\t\t})\n\t}\n\tif herr != nil {", Expect: "serveHTTP/End.Error#2", Why: "End reports success for a failed RPC"})
+		Old: "\t\t\t\tError:     endErr,", New: "\t\t\t\tError:     nil,", Expect: "End.Error#1", Why: "End reports success for a failed RPC"})
 	control(&Control{ID: "statsorder-ctx", Rule: "STATS-ORDER", File: "larking/grpc.go",
 		Old: "sh.HandleRPC(ctx, &stats.End{", New: "sh.HandleRPC(r.Context(), &stats.End{", Expect: "serveGRPC/ctx:End", Why: "End emitted with the untagged context"})
 
